@@ -25,11 +25,16 @@ Proof.
     destruct (splitlines b) as [|l ls]; [|reflexivity]. destruct a; reflexivity.
 Qed.
 
-Lemma splitlines_brk k b : brk_okb k = true -> splitlines (brk_text k ++ b) = [] :: splitlines b.
+Definition no_lf_head (b : str) : Prop := match b with c :: _ => (c =? 10) = false | [] => True end.
+Definition cr_safe (k : brk) (b : str) : Prop := match k with BrCR => no_lf_head b | _ => True end.
+
+Lemma splitlines_brk k b : brk_okb k = true -> cr_safe k b -> splitlines (brk_text k ++ b) = [] :: splitlines b.
 Proof.
-  destruct k as [|c]; cbn [brk_okb brk_text app splitlines].
-  - intros _. reflexivity.
-  - intros H. apply andb_prop in H as [H1 H2]. apply negb_true_iff in H2. rewrite H1, H2. reflexivity.
+  destruct k as [| |c]; cbn [brk_okb brk_text app splitlines cr_safe].
+  - intros _ _. reflexivity.
+  - intros _ Hb. change (is_linebreak 13) with true. change (13 =? 13) with true. cbn iota.
+    destruct b as [|d b']; [reflexivity|]. cbn [no_lf_head] in Hb. rewrite Hb. reflexivity.
+  - intros H _. apply andb_prop in H as [H1 H2]. apply negb_true_iff in H2. rewrite H1, H2. reflexivity.
 Qed.
 
 (* ---- strip_comment on concatenations *)
@@ -77,23 +82,23 @@ Proof.
   - cbn [map]. rewrite Ht. apply join_prefix.
 Qed.
 
-Lemma text_brk k b : brk_okb k = true ->
+Lemma text_brk k b : brk_okb k = true -> cr_safe k b ->
   text_of_string (brk_text k ++ b) = match b with [] => [] | _ => c_nl :: text_of_string b end.
 Proof.
-  intros Hk. unfold text_of_string. rewrite (splitlines_brk k b Hk). cbn [map].
+  intros Hk Hs. unfold text_of_string. rewrite (splitlines_brk k b Hk Hs). cbn [map].
   destruct (splitlines b) as [|l ls] eqn:E.
   - apply splitlines_nil in E. subst b. reflexivity.
   - destruct b as [|c b]; [discriminate|]. reflexivity.
 Qed.
 
-Lemma text_comment cm k b : no_linebreak cm = true -> brk_okb k = true ->
+Lemma text_comment cm k b : no_linebreak cm = true -> brk_okb k = true -> cr_safe k b ->
   text_of_string (c_percent :: cm ++ brk_text k ++ b) = text_of_string (brk_text k ++ b).
 Proof.
-  intros Hcm Hk. unfold text_of_string.
+  intros Hcm Hk Hs. unfold text_of_string.
   change (c_percent :: cm ++ brk_text k ++ b) with ((c_percent :: cm) ++ brk_text k ++ b).
   rewrite (splitlines_prefix (c_percent :: cm)).
   2:{ unfold no_linebreak in *. cbn [forallb]. now rewrite Hcm. }
-  rewrite (splitlines_brk k b Hk). cbn [map app]. reflexivity.
+  rewrite (splitlines_brk k b Hk Hs). cbn [map app]. reflexivity.
 Qed.
 
 (* ---- a gap *)
@@ -109,22 +114,39 @@ Proof.
     rewrite E. rewrite ?orb_true_r. reflexivity.
 Qed.
 
-Lemma text_gap : forall items X, forallb gitem_okb items = true ->
+Lemma starts_lf_head r X : starts_lf r = false -> no_lf_head X -> forallb gitem_okb r = true ->
+  no_lf_head (flat_map gitem_text r ++ X).
+Proof.
+  destruct r as [|i r']; cbn [flat_map app]; [auto|]. intros Hs _ Hok.
+  cbn [forallb] in Hok. apply andb_prop in Hok as [Hi _].
+  destruct i as [c|k|cm k]; cbn [gitem_text gitem_okb starts_lf] in *.
+  - cbn [app no_lf_head]. apply andb_prop in Hi as [_ Hl]. apply negb_true_iff in Hl.
+    destruct (c =? 10) eqn:E; [|reflexivity]. apply N.eqb_eq in E. subst c. discriminate.
+  - destruct k as [| |c]; cbn [brk_text app no_lf_head]; try reflexivity. exact Hs.
+  - reflexivity.
+Qed.
+
+Lemma text_gap : forall items X, forallb gitem_okb items = true -> cr_okb items = true -> no_lf_head X ->
   exists g', forallb is_space g' = true /\
     text_of_string (sgap_text items ++ X) = g' ++ text_of_string X /\
     (items <> [] -> X <> [] -> g' <> []).
 Proof.
-  induction items as [|i r IH]; intros X Hok.
+  induction items as [|i r IH]; intros X Hok Hcr HX.
   - exists []. cbn. split; [reflexivity|]. split; [reflexivity|]. intros H; congruence.
   - cbn [forallb] in Hok. apply andb_prop in Hok as [Hi Hr].
-    destruct (IH X Hr) as (gr & Hgr & Heq & Hne).
+    cbn [cr_okb] in Hcr. apply andb_prop in Hcr as [Hcr1 Hcr2]. apply negb_true_iff in Hcr1.
+    destruct (IH X Hr Hcr2 HX) as (gr & Hgr & Heq & Hne).
     unfold sgap_text in *. cbn [flat_map]. rewrite <- app_assoc.
     set (Y := flat_map gitem_text r ++ X) in *.
     assert (HY : Y = [] -> X = []) by (unfold Y; intros H; apply app_eq_nil in H; tauto).
-    assert (Hbrk : forall k, brk_okb k = true ->
+    assert (Hsafe : forall k, ends_cr i = false \/ k <> BrCR \/ starts_lf r = false -> (k = BrCR -> ends_cr i = true) -> cr_safe k Y).
+    { intros k Hk Hki. destruct k; cbn [cr_safe]; auto.
+      unfold Y. apply starts_lf_head; [|exact HX|exact Hr].
+      specialize (Hki eq_refl). rewrite Hki in Hcr1. cbn [andb] in Hcr1. exact Hcr1. }
+    assert (Hbrk : forall k, brk_okb k = true -> cr_safe k Y ->
        exists g', forallb is_space g' = true /\ text_of_string (brk_text k ++ Y) = g' ++ text_of_string X /\
                   (X <> [] -> g' <> [])).
-    { intros k Hk. rewrite (text_brk k Y Hk). destruct Y as [|y Y'] eqn:EY.
+    { intros k Hk Hs. rewrite (text_brk k Y Hk Hs). destruct Y as [|y Y'] eqn:EY.
       - exists []. split; [reflexivity|]. rewrite (HY eq_refl). split; [reflexivity|]. intros H; congruence.
       - exists (c_nl :: gr). split; [cbn [forallb]; rewrite Hgr; reflexivity|].
         split; [rewrite Heq; reflexivity|]. intros _; discriminate. }
@@ -132,17 +154,21 @@ Proof.
     + apply andb_prop in Hi as [Hs Hl]. apply negb_true_iff in Hl.
       exists (c :: gr). split; [cbn [forallb]; now rewrite Hs, Hgr|].
       split; [|intros _ _; discriminate].
-      change ([c] ++ Y) with ([c] ++ Y). rewrite (text_prefix [c] Y).
+      rewrite (text_prefix [c] Y).
       * rewrite Heq. reflexivity.
       * unfold no_linebreak. cbn [forallb]. now rewrite Hl.
       * apply transparent_plain. cbn [forallb]. rewrite andb_true_r. unfold cplain.
         apply andb_true_intro; split; apply negb_true_iff.
         -- destruct (c =? c_percent) eqn:E; [|reflexivity]. apply N.eqb_eq in E. subst c. discriminate.
         -- destruct (c =? c_quote) eqn:E; [|reflexivity]. apply N.eqb_eq in E. subst c. discriminate.
-    + destruct (Hbrk k Hi) as (g' & H1 & H2 & H3). exists g'. split; [exact H1|]. split; [exact H2|]. intros _; exact H3.
+    + assert (Hs : cr_safe k Y).
+      { apply Hsafe; [destruct k; cbn [ends_cr] in *; auto; right; left; discriminate|intros ->; reflexivity]. }
+      destruct (Hbrk k Hi Hs) as (g' & H1 & H2 & H3). exists g'. split; [exact H1|]. split; [exact H2|]. intros _; exact H3.
     + apply andb_prop in Hi as [Hcm Hk].
-      destruct (Hbrk k Hk) as (g' & H1 & H2 & H3). exists g'. split; [exact H1|]. split; [|intros _; exact H3].
-      cbn [app]. rewrite <- app_assoc. rewrite (text_comment cm k Y Hcm Hk). exact H2.
+      assert (Hs : cr_safe k Y).
+      { apply Hsafe; [destruct k; cbn [ends_cr] in *; auto; right; left; discriminate|intros ->; reflexivity]. }
+      destruct (Hbrk k Hk Hs) as (g' & H1 & H2 & H3). exists g'. split; [exact H1|]. split; [|intros _; exact H3].
+      cbn [app]. rewrite <- app_assoc. rewrite (text_comment cm k Y Hcm Hk Hs). exact H2.
 Qed.
 
 (* ---- printed tokens: on one line and transparent for strip_comment *)
@@ -201,17 +227,22 @@ Proof.
   - cbn [slayout_okb] in Hlay. cbn [weave].
     destruct gs as [|g gs0]; cbn [map].
     + exists []. split; reflexivity.
-    + destruct (text_gap g [] Hlay) as (g' & Hg' & Heq & _).
+    + apply andb_prop in Hlay as [Hlay Hcr].
+      destruct (text_gap g [] Hlay Hcr I) as (g' & Hg' & Heq & _).
       rewrite app_nil_r in Heq. exists [g']. cbn [weave layout_okb]. split; [|exact Hg'].
       rewrite Heq. change (text_of_string []) with (@nil char). apply app_nil_r.
   - inversion Hts as [|? ? Ht Hts']; subst.
     cbn [slayout_okb] in Hlay. apply andb_prop in Hlay as [Hlay Hrest]. apply andb_prop in Hlay as [Hgap Hneed].
+    apply andb_prop in Hgap as [Hgap Hcr].
     destruct (ltok_src_facts t Ht) as [Hnb Htr].
     destruct (IH (tl gs) (Some t) Hts' Hrest) as (gs'' & Heq2 & Hlay2).
     rewrite weave_s_cons.
     assert (HX : ltok_text t ++ weave (map sgap_text (tl gs)) ts <> []).
     { destruct (ltok_text_head t (proj1 Ht)) as (c & r & -> & _). discriminate. }
-    destruct (text_gap (sgap_hd gs) (ltok_text t ++ weave (map sgap_text (tl gs)) ts) Hgap) as (g' & Hg' & Heq & Hne).
+    assert (HX2 : no_lf_head (ltok_text t ++ weave (map sgap_text (tl gs)) ts)).
+    { destruct (ltok_text_head t (proj1 Ht)) as (c & r & -> & Hc). cbn [app no_lf_head].
+      destruct (c =? 10) eqn:E; [|reflexivity]. apply N.eqb_eq in E. subst c. discriminate. }
+    destruct (text_gap (sgap_hd gs) (ltok_text t ++ weave (map sgap_text (tl gs)) ts) Hgap Hcr HX2) as (g' & Hg' & Heq & Hne).
     rewrite Heq, (text_prefix _ _ Hnb Htr), Heq2.
     exists (g' :: gs''). split; [reflexivity|].
     cbn [layout_okb gap_hd tl]. rewrite Hg', Hlay2, andb_true_r. cbn [andb].
@@ -272,3 +303,48 @@ Proof.
   destruct (text_weave (flat_program p) gs None (flat_program_ok p Hwf Hsrc) Hlay) as (gs' & Heq & Hlay').
   rewrite Heq. apply (text_roundtrip p gs' Hwf Hlay').
 Qed.
+
+(* ---- a sufficient condition on the SOURCE for the hypothesis of error_names_line: every line
+        has an even number of double quotes before its comment *)
+From Pybtex Require Import Proofs.BstComment.
+
+Lemma ssl_line l : no_linebreak l = true -> forall inq r,
+  ssl inq (l ++ r) = ssl (if Nat.even (quotes l) then inq else negb inq) r.
+Proof.
+  induction l as [|c l IH]; intros Hl inq r; [reflexivity|].
+  unfold no_linebreak in Hl. cbn [forallb] in Hl. apply andb_prop in Hl as [Hc Hl]. apply negb_true_iff in Hc.
+  assert (Hlf : (c =? 10) = false).
+  { destruct (c =? 10) eqn:E; [|reflexivity]. apply N.eqb_eq in E. subst c. discriminate. }
+  cbn [app ssl quotes]. destruct (c =? c_quote) eqn:Eq.
+  - rewrite (IH Hl). cbn [Nat.add]. rewrite Nat.even_succ, <- Nat.negb_even.
+    destruct (Nat.even (quotes l)); cbn [negb]; [reflexivity|now rewrite negb_involutive].
+  - rewrite Hlf, andb_false_r. rewrite (IH Hl). reflexivity.
+Qed.
+
+Lemma ssl_join ls : Forall (fun l => no_linebreak l = true /\ Nat.even (quotes l) = true) ls ->
+  ssl false (join [c_nl] ls) = true.
+Proof.
+  induction ls as [|l ls IH]; intros H; [reflexivity|].
+  inversion H as [|? ? [Hl He] Hls]; subst.
+  destruct ls as [|l2 ls2].
+  - cbn [join]. rewrite <- (app_nil_r l), (ssl_line l Hl), He. reflexivity.
+  - rewrite join_cons2, (ssl_line l Hl), He. cbn [app ssl]. apply (IH Hls).
+Qed.
+
+Definition balanced_quotes (src : str) : Prop :=
+  Forall (fun l => Nat.even (quotes (strip_comment l)) = true) (splitlines src).
+
+Lemma balanced_quotes_ssl src : balanced_quotes src -> ssl false (text_of_string src) = true.
+Proof.
+  intros H. unfold text_of_string. apply ssl_join.
+  pose proof (splitlines_pieces src) as Hp. unfold balanced_quotes in H.
+  induction Hp as [|l ls Hl Hls IH]; cbn [map]; [constructor|].
+  inversion H; subst. constructor; [|now apply IH].
+  split; [|assumption]. unfold strip_comment, no_linebreak. apply strip_comment_go_forallb. exact Hl.
+Qed.
+
+Theorem error_names_line_src : forall src c l,
+  balanced_quotes src -> parse_string src = PyErr c l ->
+  (1 <= l <= Z.of_nat (Nat.max 1 (length (splitlines src))))%Z /\
+  exists pre post, text_of_string src = pre ++ post /\ l = (1 + lf pre)%Z /\ error_site c pre post.
+Proof. intros src c l H. apply error_names_line. now apply balanced_quotes_ssl. Qed.
